@@ -539,3 +539,171 @@ theorem nameAt_frame_gap {G : Nat → Prop} {oct oct' : Bytes} {cur a p : Nat} {
       exact hd
 
 end QV.Writer
+
+namespace QV.Writer
+open QV QV.Wire
+
+/-! ### unconditionally: a match always replaces at least one label -/
+
+/-- every live match of a context started at an earlier column -/
+def ColsLt (c : Nat) (o : Option PriorCtx) : Prop :=
+  ∀ pc, o = some pc → ∀ ms, pc.matchStart = some ms → ms.startColumn < c
+
+theorem stepCtx_cols {oct : Bytes} {mode : CMode} {c : Nat} {lab : Label} {o o' : Option PriorCtx}
+    (h : ColsLt c o) (hs : stepCtx oct mode c lab o = .ok o') : ColsLt (c + 1) o' := by
+  cases o with
+  | none => simp [stepCtx] at hs; subst hs; intro pc h; cases h
+  | some pc =>
+    unfold stepCtx at hs
+    dsimp only at hs
+    by_cases h1 : c < pc.startColumn
+    · rw [if_pos h1] at hs
+      cases hs
+      intro q hq ms hm; cases hq
+      exact Nat.lt_succ_of_lt (h pc rfl ms hm)
+    · rw [if_neg h1] at hs
+      by_cases h2 : pc.pointer < oct.size
+      · rw [dif_pos h2] at hs
+        by_cases h3 : pc.pointer + 1 + oct[pc.pointer].toNat > oct.size
+        · rw [if_pos h3] at hs; cases hs
+        · rw [if_neg h3] at hs
+          cases hm : moveToNextRealLabel oct (pc.pointer + 1 + oct[pc.pointer].toNat) with
+          | ok p' =>
+            rw [hm] at hs
+            simp only [Out.ok.injEq] at hs
+            subst hs
+            intro q hq ms hms
+            cases hq
+            simp only at hms
+            cases hh : hintPointerNew pc.pointer with
+            | none => rw [hh] at hms; cases hms
+            | some pp =>
+              rw [hh] at hms
+              simp only at hms
+              generalize (if mode = CMode.casePreserving then
+                  decide (lab = (oct.extract (pc.pointer + 1) (pc.pointer + 1 + oct[pc.pointer].toNat)).toList)
+                else WName.labelEqIgnoreCase lab
+                  (oct.extract (pc.pointer + 1) (pc.pointer + 1 + oct[pc.pointer].toNat)).toList) = eqb at hms
+              cases eqb with
+              | false => simp at hms
+              | true =>
+                simp only [if_true] at hms
+                cases hold : pc.matchStart with
+                | none => rw [hold] at hms; cases hms; exact Nat.lt_succ_self _
+                | some m0 =>
+                  rw [hold] at hms; cases hms
+                  exact Nat.lt_succ_of_lt (h pc rfl _ hold)
+          | err e => rw [hm] at hs; cases hs
+          | panic => rw [hm] at hs; cases hs
+      · rw [dif_neg h2] at hs; cases hs
+
+theorem dedup_cols {c : Nat} {c0 c1 : Option PriorCtx} (h0 : ColsLt c c0) (h1 : ColsLt c c1) :
+    ColsLt c (dedup c0 c1).1 ∧ ColsLt c (dedup c0 c1).2 := by
+  have hn : ColsLt c none := fun pc h => by cases h
+  unfold dedup
+  repeat' split
+  all_goals first
+    | exact ⟨h0, h1⟩
+    | exact ⟨h0, hn⟩
+    | exact ⟨hn, h1⟩
+
+theorem scan_cols {oct : Bytes} {mode : CMode} (rest : List Label) (c : Nat) (c0 c1 r0 r1 : Option PriorCtx)
+    (h0 : ColsLt c c0) (h1 : ColsLt c c1) (hs : scan oct mode c rest c0 c1 = .ok (r0, r1)) :
+    ColsLt (c + rest.length) r0 ∧ ColsLt (c + rest.length) r1 := by
+  induction rest generalizing c c0 c1 with
+  | nil => simp only [scan, Out.ok.injEq, Prod.mk.injEq] at hs; obtain ⟨rfl, rfl⟩ := hs; exact ⟨h0, h1⟩
+  | cons lab rest ih =>
+    simp only [scan] at hs
+    obtain ⟨d0, d1⟩ := dedup_cols h0 h1
+    cases e0 : stepCtx oct mode c lab (dedup c0 c1).1 with
+    | ok o0 =>
+      rw [e0] at hs
+      cases e1 : stepCtx oct mode c lab (dedup c0 c1).2 with
+      | ok o1 =>
+        rw [e1] at hs
+        have := ih (c + 1) o0 o1 (stepCtx_cols d0 e0) (stepCtx_cols d1 e1) hs
+        simpa [Nat.add_assoc, Nat.add_comm 1] using this
+      | err e => rw [e1] at hs; cases hs
+      | panic => rw [e1] at hs; cases hs
+    | err e => rw [e0] at hs; cases hs
+    | panic => rw [e0] at hs; cases hs
+
+theorem buildPriorCtxOpt_cols {oct : Bytes} {clen : Nat} {o : Option Prior} {r : Option PriorCtx}
+    (h : buildPriorCtxOpt oct clen o = .ok r) : ColsLt 0 r := by
+  intro pc hpc ms hms
+  cases o with
+  | none => simp [buildPriorCtxOpt] at h; subst h; cases hpc
+  | some p =>
+    simp only [buildPriorCtxOpt] at h
+    cases hb : buildPriorCtx oct clen p with
+    | ok c =>
+      rw [hb] at h
+      simp only [Out.ok.injEq] at h
+      subst h
+      cases hpc
+      unfold buildPriorCtx at hb
+      split at hb
+      · cases hb; cases hms
+      · cases hb
+      · cases hb
+    | err e => rw [hb] at h; cases h
+    | panic => rw [hb] at h; cases h
+
+/-- **for any buffer and any anchors, valid or not**: if the scan decides to compress, the
+    pointer replaces at least one label (so the compressed form is shorter than the name) -/
+theorem compressDecision_col {oct : Bytes} {mode : CMode} {a b : Option Prior} {n : WName}
+    {m : MatchStart} (h : compressDecision oct mode a b n = .ok (some m)) :
+    m.startColumn < n.labels.length := by
+  unfold compressDecision at h
+  split at h
+  · cases h
+  · cases e0 : buildPriorCtxOpt oct n.len a with
+    | ok r0 =>
+      rw [e0] at h
+      cases e1 : buildPriorCtxOpt oct n.len b with
+      | ok r1 =>
+        rw [e1] at h
+        simp only [] at h
+        cases es : scan oct mode 0 n.labels r0 r1 with
+        | ok pr =>
+          obtain ⟨s0, s1⟩ := pr
+          rw [es] at h
+          simp only [Out.ok.injEq] at h
+          obtain ⟨q0, q1⟩ := scan_cols n.labels 0 r0 r1 s0 s1 (buildPriorCtxOpt_cols e0)
+            (buildPriorCtxOpt_cols e1) es
+          simp only [Nat.zero_add] at q0 q1
+          unfold longestMatch at h
+          split at h
+          · rename_i x y hx hy
+            have hx' : ∃ pc, s0 = some pc ∧ pc.matchStart = some x := by
+              cases s0 with
+              | none => cases hx
+              | some pc => exact ⟨pc, rfl, hx⟩
+            have hy' : ∃ pc, s1 = some pc ∧ pc.matchStart = some y := by
+              cases s1 with
+              | none => cases hy
+              | some pc => exact ⟨pc, rfl, hy⟩
+            obtain ⟨p0, hp0, hm0⟩ := hx'
+            obtain ⟨p1, hp1, hm1⟩ := hy'
+            split at h
+            · cases h; exact q1 p1 hp1 _ hm1
+            · cases h; exact q0 p0 hp0 _ hm0
+          · rename_i x hx hy
+            cases h
+            cases s0 with
+            | none => cases hx
+            | some pc => exact q0 pc rfl _ hx
+          · rename_i y hx hy
+            cases h
+            cases s1 with
+            | none => cases hy
+            | some pc => exact q1 pc rfl _ hy
+          · cases h
+        | err e => rw [es] at h; cases h
+        | panic => rw [es] at h; cases h
+      | err e => rw [e1] at h; cases h
+      | panic => rw [e1] at h; cases h
+    | err e => rw [e0] at h; cases h
+    | panic => rw [e0] at h; cases h
+
+end QV.Writer
